@@ -15,6 +15,7 @@ import Scico.Proofs.LinOps6
 import Scico.Proofs.LinOps7
 import Scico.Proofs.LinOps8
 import Scico.Proofs.LinOps9
+import Scico.Proofs.LinOps10
 import Mathlib.Data.Complex.Basic
 import Mathlib.Tactic.NormNum
 
@@ -668,5 +669,68 @@ end XRayAngles
 -- non-vacuity: the default geometry of a (2,3) image with `dx = 1`, `det_count = 4`: `x0 = (−1, −3/2)`,
 -- `y0 = −2`, so `x0[0] − y0 = 1 ∈ ℕ`; over ℚ with `floor` = `Rat.floor`
 example : ∀ z : Int, Rat.floor (z : ℚ) = z := fun z => Rat.floor_intCast z
+
+
+/-! ### round 2, continued -/
+
+/-- DFT over ANY subset of the axes of an array of any shape (`DFT(input_shape, axes=…)` without `axes_shape`):
+    `inv ∘ eval = id` for every normalisation (`s·s'·Π_{a ∈ axes} n_a = 1`); `ws[a] = some ω_a` marks a transformed
+    axis, `none` an axis that is left alone. -/
+theorem C04_dft_axes_inv {F : Type} [Field F] (dims : List Nat) (ws : List (Option F)) (s s' : F) (x : V F) (p : Nat)
+    (hr : RootsOpt dims ws) (hs : s * s' * (dftAxesSize dims ws : F) = 1) (hp : p < prodL dims) :
+    s' * dftAxes dims (ws.map (Option.map (·⁻¹))) (fun f => s * dftAxes dims ws x f) p = x p := by
+  have e := dftAxes_lin (Finset.range 1) dims (ws.map (Option.map (·⁻¹))) (fun _ => s) (fun _ => dftAxes dims ws x) p
+  simp only [Finset.sum_range_one] at e
+  rw [e, dftAxes_inv_raw dims ws x p hr hp]
+  calc s' * (s * ((dftAxesSize dims ws : F) * x p)) = (s * s' * (dftAxesSize dims ws : F)) * x p := by ring
+    _ = x p := by rw [hs, one_mul]
+
+-- non-vacuity: shape (3, 2), transform over axis 1 only, over ℚ
+example : RootsOpt [3, 2] [none, some (-1 : ℚ)] := by
+  refine ⟨by norm_num, ?_, by norm_num, trivial⟩
+  rw [IsPrimitiveRoot.iff_def]
+  refine ⟨by norm_num, fun l hl => ?_⟩
+  rcases Nat.even_or_odd l with h | h
+  · exact even_iff_two_dvd.mp h
+  · rw [h.neg_one_pow] at hl; norm_num at hl
+example : dftAxesSize [3, 2] [none, some (-1 : ℚ)] = 2 := by decide
+
+/-- further facts about the constructor's shift phases for ANY (fractional) centre: the zero-frequency bin is
+    untouched (the shifted filter has the same sum of taps), and away from the Nyquist bin shifts compose. -/
+theorem C04_circ_phase_dc_add {F Q : Type} [Field F] [Field Q] [CharZero Q] {E C : Q → F} (h : ExpContract E C)
+    (k1 k2 : Q) (s f : Nat) (hs : 0 < s) :
+    shiftPhase E C (fun m => (m : Q)) k1 s 0 = 1
+    ∧ (2 * f ≠ s → shiftPhase E C (fun m => (m : Q)) (k1 + k2) s f
+        = shiftPhase E C (fun m => (m : Q)) k1 s f * shiftPhase E C (fun m => (m : Q)) k2 s f) :=
+  ⟨shiftPhase_dc h k1 s hs, shiftPhase_add h k1 k2 s f⟩
+
+section XRayGeometry
+variable {F : Type} [Field F] [LinearOrder F] [IsStrictOrderedRing F]
+local instance : HasNat F := ⟨Nat.cast⟩
+local instance : Scico.HasAbs F := ⟨abs⟩
+
+/-- the weight of the first bin lies in `(0, 1]` (so `w, 1 − w` is a convex split of the pixel value) for every
+    geometry with a footprint of positive width; `floor` enters through `floor z ≤ z < floor z + 1`. -/
+theorem C04_xray_weight_range (g : XGeom F) (fl : F → Int) (hfl : FloorContract fl) (hw : 0 < g.width) (i j : Nat) :
+    0 < g.wt fl (fun z => (z : F)) i j ∧ g.wt fl (fun z => (z : F)) i j ≤ 1 :=
+  xray_wt_range g fl hfl hw i j
+
+/-- mass conservation stated on the GEOMETRY: if the detector covers the shadow of the object in a view
+    (`0 ≤ Px[i,j]` and `Px[i,j] + 1 < ny` for every pixel, `Px` from the `_calc_weights` formula), the view of
+    `XRayTransform2D` conserves the total mass — for every image, pixel size, offset and angle. -/
+theorem C04_xray_mass_geometry (g : XGeom F) (fl : F → Int) (hfl : FloorContract fl) (n0 n1 ny : Nat) (x : V F)
+    (hcov : ∀ i j, i < n0 → j < n1 → 0 ≤ g.px i j ∧ g.px i j + 1 < (ny : F)) :
+    sumTo ny (xrayProject (n0 * n1) (fun p => g.ind fl (p / n1) (p % n1))
+        (fun p => g.wt fl (fun z => (z : F)) (p / n1) (p % n1)) x ny) = sumTo (n0 * n1) x :=
+  xray_mass_geometry g fl hfl n0 n1 ny x hcov
+
+end XRayGeometry
+
+-- non-vacuity: `Rat.floor` satisfies the floor contract
+example : FloorContract (K := ℚ) Rat.floor := fun z => ⟨Rat.le_floor_iff.mp (Int.le_refl _), by
+  by_contra h
+  have h' : ((Rat.floor z + 1 : Int) : ℚ) ≤ z := by push_cast; exact not_lt.mp h
+  have := Rat.le_floor_iff.mpr h'
+  omega⟩
 
 end Scico.Props.C04
